@@ -203,6 +203,22 @@ def check(prog, rep, tier):
                 expected='decoder calls inside try/except Exception', key='Update.parse')
     else:
         rep.ok('R11.d', 'Update.parse', file=up.file, line=up.node.lineno)
+    # the generic handlers themselves cannot raise: they use the exception object only through
+    # str()/repr()/logging (attributes such as .data exist on UpdateMessageError only)
+    for fn in (up, prog.func('yabgp.message.update.Update.parse_attributes')):
+        for t in [n for n in ast.walk(fn.node) if isinstance(n, ast.Try)]:
+            for h in t.handlers:
+                generic = h.type is None or src_of(h.type).split('.')[-1] in ('Exception', 'BaseException')
+                if not generic or not h.name:
+                    continue
+                for n in ast.walk(ast.Module(body=h.body, type_ignores=[])):
+                    if isinstance(n, ast.Attribute) and isinstance(n.value, ast.Name) and n.value.id == h.name:
+                        key = 'handler-raises:%s:%s' % (fn.qualname, src_of(n))
+                        rep.bad('R11.d', key, file=fn.file, line=n.lineno, func=fn.qualname,
+                                found='the catch-all handler reads %s, which only UpdateMessageError has: any other '
+                                      'exception (IndexError, struct.error) makes the handler itself raise '
+                                      'AttributeError out of the decoder' % src_of(n),
+                                expected='handlers use the exception only via str()/logging', key=key)
     # a result object is returned on every path
     rets = [n for n in ast.walk(up.node) if isinstance(n, ast.Return)]
     last = up.node.body[-1]
